@@ -2,6 +2,7 @@
 #include "../../../../common/debug.h"
 #include "../../core/interpreter.h"
 #include "../../core/pointer_metadata.h"
+#include "../../executors/assignments/const_check_helpers.h"
 #include "../functions/generic_instantiation.h"
 #include <cinttypes>
 #include <cmath>
@@ -240,6 +241,9 @@ int64_t evaluate_incdec(
             }
             ptr_value = ptr_var->value;
         } else {
+            // (*getp())++ : const T* を返す関数の結果経由も禁止
+            AssignmentHelpers::check_const_pointer_modification(
+                interpreter, node->left->left.get());
             ptr_value = evaluate_expression_func(node->left->left.get());
         }
 
